@@ -117,4 +117,84 @@ theorem id_bound_web (dec : List Nat) (cts : List Bytes) (pol : Policy) (strict 
       | (rw [← h2]; assumption)
       | (rw [← h2]; rename_i hh; exact hh)
 
+/-- router level (did:web local or remote, did:jwk, did:key, did:nuts): a returned document has the requested DID as id -/
+theorem id_bound (dec : List Nat) (cts : List Bytes) (pol : Policy) (lf strict : Bool) (n : Node) (allow : Bool) (d : DID)
+    (srv : Nat → Req → Option Resp) (reqs : List Req) (r : ResolveResult)
+    (h : resolve dec cts pol lf strict n allow d srv = (reqs, .ok r)) : r.docID = d.str := by
+  have hloc : ∀ st reqs, (([], resolveLocal st allow d) : List Req × Res ResolveResult) = (reqs, .ok r) → r.docID = d.str := by
+    intro st reqs hr
+    cases st <;> simp [resolveLocal] at hr
+    · rw [← hr.2]
+    · split at hr <;> simp at hr
+      rw [← hr.2]
+  have hweb : ∀ reqs, (match resolveWeb dec cts pol strict d srv with
+      | (reqs, .ok id) => ((reqs, .ok { docID := id }) : List Req × Res ResolveResult)
+      | (reqs, .err e) => (reqs, .err e)
+      | (reqs, .panic p) => (reqs, .panic p)) = (reqs, .ok r) → r.docID = d.str := by
+    intro reqs hr
+    split at hr
+    · rename_i rq id heq
+      simp only [Prod.mk.injEq, Res.ok.injEq] at hr
+      rw [← hr.2]
+      exact id_bound_web dec cts pol strict d srv rq id heq
+    · simp at hr
+    · simp at hr
+  unfold resolve at h
+  simp only at h
+  split at h
+  · split at h
+    · simp at h
+    · split at h
+      · split at h
+        · exact hweb _ h
+        · exact hloc _ _ h
+      · exact hweb _ h
+  · split at h
+    · split at h <;> simp at h
+      rw [← h.2]
+    · split at h
+      · split at h
+        · simp at h
+        · exact hloc _ _ h
+      · split at h <;> simp at h
+
+/-- did:jwk and did:key: no request is made, and the result depends on nothing but the identifier (and the key
+    library's verdict on it): any two nodes, servers, strictness and flags give the same result. -/
+theorem jwk_key_pure (dec : List Nat) (cts : List Bytes) (pol pol' : Policy) (lf lf' strict strict' : Bool) (n n' : Node)
+    (allow allow' : Bool) (d : DID) (srv srv' : Nat → Req → Option Resp)
+    (hm : d.method = sJwk ∨ d.method = sKey) (hk : n.keyDecodes d = n'.keyDecodes d) :
+    (resolve dec cts pol lf strict n allow d srv).1 = [] ∧
+    resolve dec cts pol lf strict n allow d srv = resolve dec cts pol' lf' strict' n' allow' d srv' := by
+  rcases hm with hm | hm <;> simp [resolve, hm, hk, sJwk, sKey, sWeb]
+
+/-- A did:web DID that this node manages (present in its own store, active or deactivated) resolves without any
+    outbound request, whatever the servers would answer. -/
+theorem local_first_no_network (dec : List Nat) (cts : List Bytes) (pol : Policy) (strict : Bool) (n : Node) (allow : Bool)
+    (d : DID) (srv : Nat → Req → Option Resp) (hm : d.method = sWeb) (hl : n.localState d ≠ .absent) :
+    (resolve dec cts pol true strict n allow d srv).1 = [] := by
+  unfold resolve
+  simp only [hm, if_true]
+  split
+  · rfl
+  · cases hs : n.localState d <;> simp_all
+
+/-- A deactivated DID (did:web in the node's store, or did:nuts) does not resolve unless the caller allows it, and
+    with the flag it resolves marked as deactivated — without touching the network. -/
+theorem deactivated_needs_flag (dec : List Nat) (cts : List Bytes) (pol : Policy) (strict : Bool) (n : Node)
+    (d : DID) (srv : Nat → Req → Option Resp)
+    (hd : (d.method = sWeb ∧ n.didMethods.contains sWeb = true ∧ n.localState d = .deactivated) ∨
+          (d.method = sNuts ∧ n.didMethods.contains sNuts = true ∧ n.nutsState d = .deactivated)) :
+    resolve dec cts pol true strict n false d srv = ([], .err "deactivated") ∧
+    resolve dec cts pol true strict n true d srv = ([], .ok { docID := d.str, deactivated := true }) := by
+  rcases hd with ⟨hm, hc, hs⟩ | ⟨hm, hc, hs⟩
+  · unfold resolve; simp only [hm, hc, hs, if_true]; simp [resolveLocal]
+  · have h1 : (sNuts = sWeb) = False := by simp [sNuts, sWeb]
+    have h2 : (sNuts = sJwk) = False := by simp [sNuts, sJwk]
+    have h3 : (sNuts = sKey) = False := by simp [sNuts, sKey]
+    unfold resolve; simp only [hm, hc, hs, h1, h2, h3, if_true, if_false]; simp [resolveLocal]
+
+/-- non-vacuity: a node with a deactivated did:web DID and a history-derived state -/
+example : sqlState [true, false] = .deactivated ∧ sqlState [true, false, true] = .active ∧
+    nutsStateOf [true, false, true] = .deactivated := by decide
+
 end Nuts.C18.Props
